@@ -14,6 +14,13 @@ import CLModel.Compare.MissingFilter
 import CLModel.Proofs.C14Filter
 import CLModel.Proofs.C14Rules
 import CLModel.Proofs.C14Compare
+import CLModel.Paths.FilterM
+import CLModel.Proofs.C14MCompose
+import CLModel.Proofs.C14MParse
+import CLModel.Proofs.C14MMatch
+import CLModel.Proofs.C14MTexts
+import CLModel.Proofs.C14MCor
+import CLModel.Props.C12
 namespace C14
 open Filt Filt.Spec
 
@@ -284,6 +291,264 @@ theorem compare_many_observers (observers : List Obs) (keys : List Text) :
   compareMissing_eq observers keys
 
 
+/-! ## the composed model: verdicts as a function of the pattern TEXTS (`FiltM`, C14 ∘ C11/C12) -/
+section Composed
+open FiltM PM C14M
+
+/-- **The composed verdict is the abstract verdict of the instantiated configuration.**
+    `filterM cfg file entity` builds `Matcher(text, env=self.environ, root=self.root)` for every `l10n` path and
+    rule path of the configuration tree, and runs the transliteration of `filter`/`_filter`/`cache` with the raise
+    sites kept and the evaluation order of the Python (lazy `any`, reverse rule scan with `break`, early `error`
+    of an included configuration before the own matchers are bound).  `instantiate cfg file.locale file.fullpath`
+    makes ALL those constructions, all `with_env({"locale": file.locale})` and all `match(file.fullpath)` calls
+    eagerly and returns the abstract configuration of `Paths/Filter.lean` whose path predicates are the answers
+    (`instantiate_spec`).  Whenever that returns, the composed verdict is `Filt.filter` of it — so EVERY theorem
+    above (`filter_spec`, `most_severe_wins`, `exclude_short_circuit`, `last_rule_wins`, `key_file_distinction`,
+    `compare_respects_filter`, …) holds for real pattern texts.
+    The hypothesis is forced in this direction only: the lazy code may return although some matcher that it
+    does not reach would raise (`ExamplesM.lazy_witness`). -/
+theorem filterm_eq_filter (cfg : ConfigM) (file : File) (entity : Option (List Nat)) (c : Config)
+    (h : instantiate cfg file.locale file.fullpath = .ok c) :
+    filterM cfg file entity = .ok (filter c file entity) :=
+  filterM_eq entity h
+
+/-- raise sites: `filter` raises only if some `Matcher(...)` construction, `with_env` or `match(fullpath)` of the
+    configuration tree raises for this file (the converse fails: laziness, `ExamplesM.lazy_witness`) -/
+theorem filterm_raise_sites (cfg : ConfigM) (file : File) (entity : Option (List Nat)) (e : PM.PyErr)
+    (h : filterM cfg file entity = .error e) : ∃ e', instantiate cfg file.locale file.fullpath = .error e' := by
+  cases hi : instantiate cfg file.locale file.fullpath with
+  | error e' => exact ⟨e', rfl⟩
+  | ok c => rw [filterm_eq_filter cfg file entity c hi] at h; cases h
+
+/-- what `instantiate` returns: the same `locales`; one abstract path entry / rule per pattern text, in order,
+    with the same `locales` / key / action, whose path predicate is
+    `Matcher(text, env=environ, root=root).with_env({"locale": loc}).match(fp) is not None` (`patMatches`);
+    the instantiated included and excluded configurations. -/
+theorem instantiate_spec {locales : Option (List (List Nat))} {environ : Environ} {root : Option (List Nat)}
+    {paths : List PathEntryM} {rules : List RuleM} {children excludes : List ConfigM} {loc fp : List Nat} {c : Config}
+    (h : instantiate (.mk locales environ root paths rules children excludes) loc fp = .ok c) :
+    ∃ (lp : List (PathEntryM × PathEntry)) (lr : List (RuleM × Rule)) (lc le : List (ConfigM × Config)),
+      c = .mk locales (lp.map (·.2)) (lr.map (·.2)) (lc.map (·.2)) (le.map (·.2)) ∧
+      paths = lp.map (·.1) ∧ rules = lr.map (·.1) ∧ children = lc.map (·.1) ∧ excludes = le.map (·.1) ∧
+      (∀ p ∈ lp, patMatches environ root p.1.l10n loc fp = .ok (p.2.l10n.matchWith loc fp) ∧ p.1.locales = p.2.locales) ∧
+      (∀ p ∈ lr, patMatches environ root p.1.path loc fp = .ok (p.2.path.matchWith loc fp) ∧
+        p.1.key = p.2.key ∧ p.1.action = p.2.action) ∧
+      (∀ p ∈ lc, instantiate p.1 loc fp = .ok p.2) ∧ (∀ p ∈ le, instantiate p.1 loc fp = .ok p.2) :=
+  instantiate_inv h
+
+/-! ### concrete pattern classes -/
+
+/-- **A rule (or `l10n` path) whose pattern is a literal text applies to exactly that file path.**
+    `t` contains neither `*` nor `{` (`Plain`); any environment, any root, any locale.  The bound matcher matches
+    `path` iff `path` is `t` — prefixed with the root when the configuration is rooted and `t` is relative
+    (`effRoot`) — and the dictionary it returns is EMPTY.  An empty dict is falsy in Python: this is the fixed
+    finding F14 ("literal paths never apply"); `_filter` now tests `is not None`, which is what `patMatches` is. -/
+theorem literal_rule_applies {environ : Environ} {root : Option (List Nat)} {t L : List Nat} {b : Matcher}
+    (ht : Plain t) (hb : boundMatcher environ root t L = .ok b) (path : List Nat) :
+    b.match path = .ok (if path = effRoot root t ++ t then some [] else none) ∧
+    patMatches environ root t L path = .ok (decide (path = effRoot root t ++ t)) := by
+  have h := literal_bound_match ht hb path
+  refine ⟨h, ?_⟩
+  rw [patMatches_of_bound hb h]
+  by_cases hp : path = effRoot root t ++ t <;> simp [hp]
+
+/-- **A rule `dir/*.ext` applies to `dir/x.ext` iff `x` contains no `/`**, and then the star group is `x`.
+    Pattern text `pre ++ "*" ++ post` with `pre`, `post` free of `*` and `{` and `pre` non-empty (a rooted pattern
+    must not begin with a wildcard: finding F11, it raises); any environment, root, locale, any `x`.
+    (The general fact behind the "only if" for every pattern with a top-level `*` is `C12.star_no_slash`; the
+    "if" is the instance of `C12.expand_match_star_partial` in which the star is followed by the final literal, where
+    its separation hypothesis holds automatically.  Here both directions are computed on the engine.) -/
+theorem star_rule_scope {environ : Environ} {root : Option (List Nat)} {pre post L : List Nat} {b : Matcher}
+    (hpre : Plain pre) (hne : pre ≠ []) (hpost : Plain post)
+    (hb : boundMatcher environ root (pre ++ 42 :: post) L = .ok b) (x : List Nat) :
+    b.match (effRoot root pre ++ pre ++ x ++ post) = .ok (if 47 ∈ x then none else some [(sname 1, some x)]) ∧
+    patMatches environ root (pre ++ 42 :: post) L (effRoot root pre ++ pre ++ x ++ post) = .ok (decide (47 ∉ x)) := by
+  have h := star_bound_match hpre hne hpost hb x
+  refine ⟨h, ?_⟩
+  rw [patMatches_of_bound hb h]
+  by_cases hx : 47 ∈ x <;> simp [hx]
+
+/-- for EVERY rule path with a top-level `*` (any pattern text, environment, root): whenever the rule's matcher
+    returns a dictionary for the file, the text the star stands for contains no `/` (`C12.star_no_slash` on the
+    bound matcher), and the whole path was consumed (`C12.only_complete_paths`) -/
+theorem star_rule_general {environ : Environ} {root : Option (List Nat)} {pat L path : List Nat} {b : Matcher}
+    {d : GroupDict} (_hb : boundMatcher environ root pat L = .ok b) (hm : b.match path = .ok (some d)) :
+    (∀ n v, Node.star n ∈ b.pattern.nodes → d.lookup (sname n) = some (some v) → 47 ∉ v) ∧
+    (∃ re names st, b.regexOf = .ok (re, names) ∧ Rx.matchAt path.toArray re 0 = some st ∧ st.pos = path.length) :=
+  ⟨fun _ _ hn hl => C12.star_no_slash hm hn hl, C12.only_complete_paths hm⟩
+
+/-- **`{locale}` is the queried file's locale.**  The matcher consulted for ANY pattern text of the configuration
+    and a file of locale `L` is `Matcher(pat, env=environ, root=root).with_env({"locale": L})` (`instantiate_spec`:
+    every path predicate is `patMatches … L …`).  In it
+      * "locale" is bound to the parsed text `L`, whatever `environ` says, and every other variable is bound as in
+        `environ` (`e` = the parsed `environ`);
+      * so, for a locale text without `*` / `{` and an environment of the shape the C12 theorems ask for (`EnvOK`: no
+        value repeats a variable — in particular every environment of plain texts, `C14M.bound_env_plain`): whenever
+        the matcher returns a dictionary for a path and `{locale}` occurs at top level in the pattern, the dictionary
+        says `locale = L` — the path has the file's own locale at the variable's position
+        (`C12.match_returns_bound_values`), for every pattern, wildcards included.
+    `Plain L` is forced (`ExamplesM`: the locale text is parsed as a pattern). -/
+theorem locale_binding {environ : Environ} {root : Option (List Nat)} {pat L : List Nat} {b : Matcher}
+    (hb : boundMatcher environ root pat L = .ok b) :
+    (∃ e pl, realEnv environ = .ok e ∧ parsePattern L = .ok pl ∧ b.env.lookup localeName = some (.pat pl) ∧
+      ∀ k, k ≠ localeName → b.env.lookup k = e.lookup k) ∧
+    (EnvOK b.env → Plain L → ∀ path d, b.match path = .ok (some d) →
+      Node.var localeName false ∈ b.pattern.nodes → d.lookup localeName = some (some L)) := by
+  constructor
+  · obtain ⟨e, p, pl, he, _, hpl, rfl⟩ := boundMatcher_inv hb
+    refine ⟨e, pl, he, hpl, ?_, ?_⟩
+    · simp only [lookup_dupdate, List.reverse_cons, List.reverse_nil, List.nil_append, List.lookup_cons,
+        beq_self_eq_true]
+    · intro k hk
+      have : (k == localeName) = false := by simpa using hk
+      simp only [lookup_dupdate, List.reverse_cons, List.reverse_nil, List.nil_append, List.lookup_cons, this,
+        List.lookup_nil]
+  · intro hok hL path d hm hn
+    obtain ⟨pl, hpl, hlk⟩ := bound_locale_lookup hb
+    rw [parsePattern_plain hL] at hpl
+    cases hpl
+    apply C12.match_returns_bound_values hok hm hn hlk
+    obtain ⟨g, hg⟩ := fuelFor_pos b.env
+    rw [hg, expandVal]
+    have := expandPat_flat (rec := expandVal g) (env := derase b.env localeName) (rm := true)
+      (p := ⟨[.lit L], none, 1⟩) ⟨rfl, fun n hn => ⟨L, by simpa using hn⟩⟩
+    simpa [textOf, litText] using this
+
+/-- the shape hypothesis of `locale_binding` holds for every environment of texts without `*` / `{` -/
+theorem locale_binding_plain_env {environ : Environ} {root : Option (List Nat)} {pat L : List Nat} {b : Matcher}
+    (henv : ∀ kv ∈ environ, Plain kv.2) (hL : Plain L) (hb : boundMatcher environ root pat L = .ok b) :
+    EnvOK b.env :=
+  (bound_env_plain henv hL hb).1
+
+/-- what `environ` binds "locale" to never reaches a verdict: the matcher consulted is the same with and without
+    an `environ` entry for "locale" (`cache()` rebinds it for the queried file) -/
+theorem environ_locale_overridden {environ : Environ} {root : Option (List Nat)} {pat L v : List Nat} {pv : Pattern}
+    (hno : environ.any (fun p => p.1 == localeName) = false) (hv : parsePattern v = .ok pv) :
+    boundMatcher (environ ++ [(localeName, v)]) root pat L = boundMatcher environ root pat L ∧
+    ∀ path, patMatches (environ ++ [(localeName, v)]) root pat L path = patMatches environ root pat L path := by
+  have h := bound_ignores_environ_locale (root := root) (pat := pat) (L := L) hno hv
+  exact ⟨h, fun path => by unfold patMatches; rw [h]⟩
+
+/-! ### last-rule-wins, error by default, not covered ⇒ ignore — over pattern texts
+
+First for the OWN verdict of any node of a configuration tree (`own_…_texts`; combine with `filterm_eq_filter`,
+`most_severe_wins`, `exclude_short_circuit` for trees), then end-to-end for a configuration without included / excluded
+configurations.  `C14M.RuleApplies environ root r file entity`: the rule's bound matcher
+returns a dictionary for `file.fullpath` and the key part fits; `C14M.Covered`: some `l10n` pattern text enabled for
+the locale matches; `C14M.namesLocale`: the configuration names the locale.  The hypothesis `hc` says that every
+matcher of the configuration returns for this file (see `filterm_eq_filter`). -/
+
+/-- last rule wins for the OWN verdict of any configuration node (whatever it includes / excludes): the rule text
+    `r` applies, no later rule text does — the own verdict (`Spec.own` of the instantiated node, the quantity
+    `most_severe_wins` combines with the included configurations' verdicts) is `r.action` -/
+theorem own_last_rule_wins_texts {locales : Option (List (List Nat))} {environ : Environ} {root : Option (List Nat)}
+    {paths : List PathEntryM} {pre post : List RuleM} {r : RuleM} {children excludes : List ConfigM} {file : File}
+    {entity : Option (List Nat)} {c : Config}
+    (hc : instantiate (.mk locales environ root paths (pre ++ r :: post) children excludes) file.locale file.fullpath
+      = .ok c)
+    (hcov : Covered environ root paths file) (hr : RuleApplies environ root r file entity)
+    (hpost : ∀ q ∈ post, ¬ RuleApplies environ root q file entity) :
+    own c.paths c.rules file entity = some r.action :=
+  own_last_rule_wins hc hcov hr hpost
+
+/-- own verdict, covered and no rule text applies: error -/
+theorem own_default_error_texts {locales : Option (List (List Nat))} {environ : Environ} {root : Option (List Nat)}
+    {paths : List PathEntryM} {rules : List RuleM} {children excludes : List ConfigM} {file : File}
+    {entity : Option (List Nat)} {c : Config}
+    (hc : instantiate (.mk locales environ root paths rules children excludes) file.locale file.fullpath = .ok c)
+    (hcov : Covered environ root paths file) (hno : ∀ q ∈ rules, ¬ RuleApplies environ root q file entity) :
+    own c.paths c.rules file entity = some .error :=
+  own_default_error hc hcov hno
+
+/-- own verdict, no `l10n` pattern text enabled for the locale matches: none (the rules are not consulted) -/
+theorem own_not_covered_texts {locales : Option (List (List Nat))} {environ : Environ} {root : Option (List Nat)}
+    {paths : List PathEntryM} {rules : List RuleM} {children excludes : List ConfigM} {file : File}
+    {entity : Option (List Nat)} {c : Config}
+    (hc : instantiate (.mk locales environ root paths rules children excludes) file.locale file.fullpath = .ok c)
+    (hcov : ¬ Covered environ root paths file) :
+    own c.paths c.rules file entity = none :=
+  own_not_covered hc hcov
+
+/-- last rule wins: the rule `r` applies and no later rule does — the verdict is `r.action`, whatever the
+    earlier rule texts are -/
+theorem last_rule_wins_texts {locales : Option (List (List Nat))} {environ : Environ} {root : Option (List Nat)}
+    {paths : List PathEntryM} {pre post : List RuleM} {r : RuleM} {file : File} {entity : Option (List Nat)} {c : Config}
+    (hc : instantiate (.mk locales environ root paths (pre ++ r :: post) [] []) file.locale file.fullpath = .ok c)
+    (hloc : namesLocale locales paths file.locale = true) (hcov : Covered environ root paths file)
+    (hr : RuleApplies environ root r file entity)
+    (hpost : ∀ q ∈ post, ¬ RuleApplies environ root q file entity) :
+    filterM (.mk locales environ root paths (pre ++ r :: post) [] []) file entity = .ok r.action :=
+  last_rule_wins_leaf hc hloc hcov hr hpost
+
+/-- covered and no rule text applies: error -/
+theorem default_error_texts {locales : Option (List (List Nat))} {environ : Environ} {root : Option (List Nat)}
+    {paths : List PathEntryM} {rules : List RuleM} {file : File} {entity : Option (List Nat)} {c : Config}
+    (hc : instantiate (.mk locales environ root paths rules [] []) file.locale file.fullpath = .ok c)
+    (hloc : namesLocale locales paths file.locale = true) (hcov : Covered environ root paths file)
+    (hno : ∀ q ∈ rules, ¬ RuleApplies environ root q file entity) :
+    filterM (.mk locales environ root paths rules [] []) file entity = .ok .error :=
+  default_error_leaf hc hloc hcov hno
+
+/-- no `l10n` pattern text (enabled for the locale) matches the file: ignore, the rules are not consulted -/
+theorem not_covered_ignore_texts {locales : Option (List (List Nat))} {environ : Environ} {root : Option (List Nat)}
+    {paths : List PathEntryM} {rules : List RuleM} {file : File} {entity : Option (List Nat)} {c : Config}
+    (hc : instantiate (.mk locales environ root paths rules [] []) file.locale file.fullpath = .ok c)
+    (hcov : ¬ Covered environ root paths file) :
+    filterM (.mk locales environ root paths rules [] []) file entity = .ok .ignore :=
+  not_covered_leaf hc hcov
+
+/-- a literal rule at the end of the rule list decides the verdict of exactly its own file -/
+theorem literal_rule_last_wins {locales : Option (List (List Nat))} {environ : Environ} {root : Option (List Nat)}
+    {paths : List PathEntryM} {pre : List RuleM} {t L : List Nat} {a : Action} {c : Config} (ht : Plain t)
+    (hc : instantiate (.mk locales environ root paths (pre ++ [⟨t, none, a⟩]) [] []) L (effRoot root t ++ t) = .ok c)
+    (hloc : namesLocale locales paths L = true) (hcov : Covered environ root paths ⟨effRoot root t ++ t, L⟩) :
+    filterM (.mk locales environ root paths (pre ++ [⟨t, none, a⟩]) [] []) ⟨effRoot root t ++ t, L⟩ none = .ok a := by
+  obtain ⟨x, hx⟩ := instantiate_rule_returns hc ⟨t, none, a⟩ (by simp)
+  obtain ⟨b, _, hb, _, _⟩ := patMatches_ok_inv hx
+  have hr : RuleApplies environ root ⟨t, none, a⟩ ⟨effRoot root t ++ t, L⟩ none :=
+    ⟨by rw [(literal_rule_applies ht hb _).2]; simp, rfl⟩
+  exact last_rule_wins_texts (file := ⟨effRoot root t ++ t, L⟩) (post := []) hc hloc hcov hr (fun q hq => by cases hq)
+
+/-- a rule `dir/*.ext` at the end of the rule list decides the verdict of `dir/x.ext` for every `/`-free `x` -/
+theorem star_rule_last_wins {locales : Option (List (List Nat))} {environ : Environ} {root : Option (List Nat)}
+    {paths : List PathEntryM} {pre : List RuleM} {dir ext L x : List Nat} {a : Action} {c : Config}
+    (hdir : Plain dir) (hne : dir ≠ []) (hext : Plain ext) (hx : 47 ∉ x)
+    (hc : instantiate (.mk locales environ root paths (pre ++ [⟨dir ++ 42 :: ext, none, a⟩]) [] []) L
+      (effRoot root dir ++ dir ++ x ++ ext) = .ok c)
+    (hloc : namesLocale locales paths L = true)
+    (hcov : Covered environ root paths ⟨effRoot root dir ++ dir ++ x ++ ext, L⟩) :
+    filterM (.mk locales environ root paths (pre ++ [⟨dir ++ 42 :: ext, none, a⟩]) [] [])
+      ⟨effRoot root dir ++ dir ++ x ++ ext, L⟩ none = .ok a := by
+  obtain ⟨y, hy⟩ := instantiate_rule_returns hc ⟨dir ++ 42 :: ext, none, a⟩ (by simp)
+  obtain ⟨b, _, hb, _, _⟩ := patMatches_ok_inv hy
+  have hr : RuleApplies environ root ⟨dir ++ 42 :: ext, none, a⟩ ⟨effRoot root dir ++ dir ++ x ++ ext, L⟩ none :=
+    ⟨by rw [(star_rule_scope hdir hne hext hb x).2]; simp [hx], rfl⟩
+  exact last_rule_wins_texts (file := ⟨effRoot root dir ++ dir ++ x ++ ext, L⟩) (post := []) hc hloc hcov hr
+    (fun q hq => by cases hq)
+
+/-- … and does not reach into sub-directories: with `dir/*.ext` as the only rule, a covered `dir/x.ext` whose
+    `x` contains a `/` gets the default verdict error -/
+theorem star_rule_stops_at_slash {locales : Option (List (List Nat))} {environ : Environ} {root : Option (List Nat)}
+    {paths : List PathEntryM} {dir ext L x : List Nat} {a : Action} {c : Config}
+    (hdir : Plain dir) (hne : dir ≠ []) (hext : Plain ext) (hx : 47 ∈ x)
+    (hc : instantiate (.mk locales environ root paths [⟨dir ++ 42 :: ext, none, a⟩] [] []) L
+      (effRoot root dir ++ dir ++ x ++ ext) = .ok c)
+    (hloc : namesLocale locales paths L = true)
+    (hcov : Covered environ root paths ⟨effRoot root dir ++ dir ++ x ++ ext, L⟩) :
+    filterM (.mk locales environ root paths [⟨dir ++ 42 :: ext, none, a⟩] [] [])
+      ⟨effRoot root dir ++ dir ++ x ++ ext, L⟩ none = .ok .error := by
+  obtain ⟨y, hy⟩ := instantiate_rule_returns hc ⟨dir ++ 42 :: ext, none, a⟩ (by simp)
+  obtain ⟨b, _, hb, _, _⟩ := patMatches_ok_inv hy
+  apply default_error_texts (file := ⟨effRoot root dir ++ dir ++ x ++ ext, L⟩) hc hloc hcov
+  intro q hq
+  simp only [List.mem_singleton] at hq
+  subst hq
+  rintro ⟨h1, _⟩
+  rw [(star_rule_scope hdir hne hext hb x).2] at h1
+  simp [hx] at h1
+
+end Composed
+
 /-! ## non-vacuity: the model evaluated on concrete configurations (no theorem used)
 
 Texts are code point lists: `one` = [111,110,101], `two` = [116,119,111].  The path predicate
@@ -362,5 +627,116 @@ example : filterInner parentEx fileB (some one) = none ∧
   decide
 
 end Examples
+
+/-! ## non-vacuity and negation witnesses of the composed model (evaluation, `decide +kernel`) -/
+namespace ExamplesM
+open FiltM PM C14M
+
+def de : List Nat := T "de"
+def fr : List Nat := T "fr"
+def cover : PathEntryM := ⟨T "/src/{locale}/**", none⟩
+def litRule : RuleM := ⟨T "/src/de/browser/a.ftl", none, .ignore⟩
+def locStarRule : RuleM := ⟨T "/src/{locale}/browser/*.ftl", none, .warning⟩
+def starRule : RuleM := ⟨T "/src/de/browser/" ++ 42 :: T ".ftl", none, .warning⟩
+
+/-- two locales, one `l10n` path, two rules as `add_rules` compiles them: a literal one, then `{locale}`/`*` -/
+def cfg : ConfigM := .mk (some [de, fr]) [] none [cover]
+  (addRulesM [] [⟨.one (T "/src/de/browser/a.ftl"), none, .ignore⟩,
+                 ⟨.one (T "/src/{locale}/browser/*.ftl"), none, .warning⟩]) [] []
+/-- the same two rules in the other order -/
+def cfgSwapped : ConfigM := .mk (some [de, fr]) [] none [cover] ([locStarRule] ++ [litRule]) [] []
+/-- a literal rule, then `/src/de/browser/*.ftl` -/
+def cfgStar : ConfigM := .mk (some [de, fr]) [] none [cover] ([litRule] ++ [starRule]) [] []
+
+def aDe : File := ⟨T "/src/de/browser/a.ftl", de⟩
+def aFr : File := ⟨T "/src/fr/browser/a.ftl", fr⟩
+def subDe : File := ⟨T "/src/de/browser/sub/c.ftl", de⟩
+
+/-- the composed model evaluated: last rule wins (either order), the literal rule applies to its own file only,
+    `*` stays inside `browser/`, `{locale}` is the file's locale (a `de` path queried as locale `fr` is not
+    covered), an unnamed locale is ignored -/
+example : filterM cfg aDe none = .ok .warning ∧ filterM cfgSwapped aDe none = .ok .ignore ∧
+    filterM cfgSwapped aFr none = .ok .warning ∧ filterM cfg subDe none = .ok .error ∧
+    filterM cfg ⟨T "/src/de/browser/a.ftl", fr⟩ none = .ok .ignore ∧
+    filterM cfg ⟨T "/src/ja/browser/a.ftl", T "ja"⟩ none = .ok .ignore ∧
+    filterM cfg aDe (some (T "key")) = .ok .error := by decide +kernel
+
+/-- non-vacuity of `filterm_eq_filter`: `instantiate` returns on these queries -/
+example : isOk (instantiate cfg de aDe.fullpath) = true ∧ isOk (instantiate cfgSwapped fr aFr.fullpath) = true ∧
+    isOk (instantiate cfgStar de subDe.fullpath) = true := by decide +kernel
+
+/-- what the matcher of the `{locale}`/`*` rule returns for a `de` file: `locale = de`, `s1 = a` -/
+example : (boundMatcher [] none locStarRule.path de >>= fun b => b.match aDe.fullpath) =
+    .ok (some [(localeName, some de), (sname 1, some (T "a"))]) := by decide +kernel
+
+/-- `literal_rule_last_wins` applied: its hypotheses hold for `cfgSwapped` and the file of the literal rule -/
+example : filterM cfgSwapped aDe none = .ok .ignore := by
+  have hc : isOk (instantiate cfgSwapped de aDe.fullpath) = true := by decide +kernel
+  cases hi : instantiate cfgSwapped de aDe.fullpath with
+  | error e => rw [hi] at hc; cases hc
+  | ok c =>
+    have hcov : Covered [] none [cover] ⟨effRoot none litRule.path ++ litRule.path, de⟩ :=
+      ⟨cover, by simp, rfl, by decide +kernel⟩
+    exact literal_rule_last_wins (t := litRule.path) (a := .ignore) (by decide) hi (by decide) hcov
+
+/-- `star_rule_last_wins` / `star_rule_stops_at_slash` applied to `cfgStar`-like configurations -/
+example : filterM cfgStar aDe none = .ok .warning := by
+  have hc : isOk (instantiate cfgStar de aDe.fullpath) = true := by decide +kernel
+  cases hi : instantiate cfgStar de aDe.fullpath with
+  | error e => rw [hi] at hc; cases hc
+  | ok c =>
+    have hcov : Covered [] none [cover] ⟨effRoot none (T "/src/de/browser/") ++ T "/src/de/browser/" ++ T "a" ++ T ".ftl", de⟩ :=
+      ⟨cover, by simp, rfl, by decide +kernel⟩
+    exact star_rule_last_wins (dir := T "/src/de/browser/") (ext := T ".ftl") (x := T "a") (a := .warning)
+      (by decide) (by decide) (by decide) (by decide) hi (by decide) hcov
+
+/-! ### negation witnesses -/
+
+def dupEnv : Environ := [(T "dup", T "{locale}x")]
+/-- a rule whose matcher raises `re.error` when it is used (group `locale` defined twice: finding F12) -/
+def boom : RuleM := ⟨T "/src/{dup}/{locale}/**", none, .ignore⟩
+
+/-- `filterm_eq_filter` needs `instantiate` to return, and only in this direction: with the raising rule BEFORE
+    the applicable one the reverse scan never consults it — the code returns although `instantiate` raises; with
+    the raising rule AFTER it the code raises. -/
+theorem lazy_witness :
+    filterM (.mk (some [de]) dupEnv none [cover] [boom, locStarRule] [] []) aDe none = .ok .warning ∧
+    errIs (instantiate (.mk (some [de]) dupEnv none [cover] [boom, locStarRule] [] []) de aDe.fullpath) .reError = true ∧
+    filterM (.mk (some [de]) dupEnv none [cover] [locStarRule, boom] [] []) aDe none = .error .reError := by
+  decide +kernel
+
+/-- likewise a raising `l10n` path after a matching one is not consulted, and an included configuration that
+    answers error returns before the own (raising) matchers are -/
+example :
+    filterM (.mk (some [de]) dupEnv none [cover, ⟨boom.path, none⟩] [] [] []) aDe none = .ok .error ∧
+    filterM (.mk (some [de]) dupEnv none [⟨boom.path, none⟩, cover] [] [] []) aDe none = .error .reError ∧
+    filterM (.mk (some [de]) dupEnv none [⟨boom.path, none⟩] [] [.mk none [] none [cover] [] [] []] []) aDe none
+      = .ok .error := by decide +kernel
+
+/-- `literal_rule_applies` needs a text without `*` / `{`: "/src/*" matches "/src/x", not itself only -/
+example : patMatches [] none (T "/src/*") de (T "/src/x") = .ok true ∧
+    patMatches [] none (T "/src/{locale}") de (T "/src/de") = .ok true := by decide +kernel
+
+/-- `star_rule_scope` needs a non-empty directory part when the configuration is rooted: a rooted pattern that
+    begins with a wildcard raises KeyError (finding F11) — and `filter` with it -/
+example : patMatches [] (some (T "/r/")) (T "*.ftl") de (T "/r/a.ftl") = .error .keyError ∧
+    filterM (.mk (some [de]) [] (some (T "/r/")) [⟨T "*.ftl", none⟩] [] [] []) ⟨T "/r/a.ftl", de⟩ none
+      = .error .keyError := by decide +kernel
+
+/-- a rooted configuration: relative patterns are relative to the root, absolute ones are not -/
+example : patMatches [] (some (T "/r/")) (T "de/a.ftl") de (T "/r/de/a.ftl") = .ok true ∧
+    patMatches [] (some (T "/r/")) (T "de/a.ftl") de (T "de/a.ftl") = .ok false ∧
+    patMatches [] (some (T "/r/")) (T "/src/de/a.ftl") de (T "/src/de/a.ftl") = .ok true := by decide +kernel
+
+/-- `locale_binding` (captured value) needs a locale text without specials: the locale text is parsed as a
+    pattern, "d*" makes `{locale}` a wildcard -/
+example : (boundMatcher [] none (T "/{locale}/a") (T "d*") >>= fun b => b.match (T "/de/a")) =
+    .ok (some [(localeName, some (T "de")), (sname 1, some (T "e"))]) := by decide +kernel
+
+/-- `environ_locale_overridden` evaluated: an `environ` entry "locale" = "zz" changes nothing -/
+example : filterM (.mk (some [de, fr]) [(localeName, T "zz")] none [cover] [litRule, locStarRule] [] []) aFr none
+    = .ok .warning := by decide +kernel
+
+end ExamplesM
 
 end C14
